@@ -4197,6 +4197,41 @@ static Value eval_expression(ASTNode *expr, Environment *env) {
     }
 }
 
+/* Does evaluating `expr` create a value that nobody else owns yet?  Literals,
+ * calls and operators do.  A variable, a field or tuple projection, and a
+ * cond/if/match that may pass one of those through, yield the buffer that is
+ * owned by the variable or aggregate it was read from. */
+static bool expr_yields_fresh_value(ASTNode *expr, Environment *env) {
+    switch (expr->type) {
+        case AST_STRING:
+        case AST_PREFIX_OP:
+        case AST_CALL:
+        case AST_MODULE_QUALIFIED_CALL:
+            return true;
+        case AST_IDENTIFIER:
+            /* a function name (not a variable) makes a new function value */
+            return env_get_var(env, expr->as.identifier) == NULL;
+        default:
+            return false;
+    }
+}
+
+/* `value` is the result of `expr` and is about to be stored in a variable,
+ * which releases what it holds when it is reassigned or goes out of scope.
+ * Give the variable a copy of its own unless the value is fresh; otherwise
+ * two holders release the same buffer (set s s, let g = f, set v p.name). */
+static Value own_value_for_store(ASTNode *expr, Value value, Environment *env) {
+    if (!expr || expr_yields_fresh_value(expr, env)) return value;
+    if (value.type == VAL_STRING && value.as.string_val) {
+        return create_string(value.as.string_val);
+    }
+    if (value.type == VAL_FUNCTION && value.as.function_val.function_name) {
+        FunctionSignature *sig_copy = copy_function_signature(value.as.function_val.signature);
+        return create_function(value.as.function_val.function_name, sig_copy);
+    }
+    return value;
+}
+
 /* Evaluate statement */
 static Value eval_statement(ASTNode *stmt, Environment *env) {
     if (!stmt) return create_void();
@@ -4225,6 +4260,7 @@ static Value eval_statement(ASTNode *stmt, Environment *env) {
             }
 
             Value value = eval_expression(stmt->as.let.value, env);
+            value = own_value_for_store(stmt->as.let.value, value, env);
             env_define_var_with_type_info(env,
                                          stmt->as.let.name,
                                          stmt->as.let.var_type,
@@ -4249,6 +4285,7 @@ static Value eval_statement(ASTNode *stmt, Environment *env) {
 
         case AST_SET: {
             Value value = eval_expression(stmt->as.set.value, env);
+            value = own_value_for_store(stmt->as.set.value, value, env);
             env_set_var(env, stmt->as.set.name, value);
             
             /* Trace variable assignment */
